@@ -41,7 +41,15 @@ ENTRIES = ["py-main-script", "py-sub-script", "ml-script", "py-main-api", "py-su
 STRAY_NONSTARTERS = [")", "]", ",", "=", "@@", "$"]
 STRAY_ANY = [";", "}", "{", "(", ")", ",", "*", "&", "@", "<", ">", "const", "class", "static", "virtual",
              "template", "typedef", "namespace", "enum", "int", "Foo", "x", "::", "=", "pair", "operator+",
-             "#", "#pragma", "#define", "\\", "%", "!"]
+             "#", "#pragma", "#define", "\\", "%", "!",
+             # C++ that interface authors paste from headers and that is not in the dialect
+             "noexcept", "override", "final", "explicit", "inline", "mutable", "volatile", "constexpr", "friend",
+             "public:", "private:", "typename", "struct", "throw()", "= 0", "= default", "= delete",
+             "[[nodiscard]]", "&&", "noexcept(true)", "extern", "unsigned", "long"]
+CPP_TAIL = ["noexcept", "override", "final", "noexcept(false)", "throw()", "= 0", "= default", "= delete", "volatile",
+            "&&", "const noexcept", "noexcept override", "-> int"]
+CPP_HEAD = ["explicit", "inline", "constexpr", "friend", "mutable", "extern", "public:", "private:", "[[nodiscard]]",
+            "typename", "struct", "unsigned", "long"]
 MISSPELL = {"class": ["clas", "Class", "klass"], "namespace": ["namespce", "Namespace"],
             "enum": ["enumm", "Enum"]}
 PROBES = ["accepted_after_corruption", "rejected_after_corruption", "multi_file_matlab",
@@ -204,7 +212,7 @@ def corrupt(lexemes, starts, tape, n, late=False):
             idx = [k for k, t in enumerate(lex) if t == ")" and k + 1 < len(lex) and lex[k + 1] in (";", "const")]
             if idx:
                 k = idx[tape.choose(len(idx), "which-signature")]
-                lex.insert(k + 1, tape.pick(["const", "static", "virtual", "*", "&", "@", "int", "const const"],
+                lex.insert(k + 1, tape.pick(["const", "static", "virtual", "*", "&", "@", "int", "const const"] + CPP_TAIL,
                                             "tail-token"))
             else:
                 kind = "noop"
@@ -213,7 +221,7 @@ def corrupt(lexemes, starts, tape, n, late=False):
             idx = [k for k, t in enumerate(lex) if t in (";", "{", "}") and k + 1 < len(lex)]
             if idx:
                 k = idx[tape.choose(len(idx), "which-head")]
-                lex.insert(k + 1, tape.pick(["const", "static", "virtual", "class", "typedef", "template", "*", "&"],
+                lex.insert(k + 1, tape.pick(["const", "static", "virtual", "class", "typedef", "template", "*", "&"] + CPP_HEAD,
                                             "head-token"))
             else:
                 kind = "noop"
